@@ -1139,3 +1139,38 @@ canary('c02-bigint-strip-zeros-unbounded', 'C02', 'crates/erltf/src/term.rs', "f
         sig -= 1;
     }
 """, 'PANIC:erltf::term::compare_int_bigint')
+_CM_OLD = """        (Sign::Positive, Sign::Positive) => a
+            .digits
+            .len()
+            .cmp(&b.digits.len())
+            .then_with(|| a.digits.iter().rev().cmp(b.digits.iter().rev())),
+        (Sign::Negative, Sign::Negative) => a
+            .digits
+            .len()
+            .cmp(&b.digits.len())
+            .then_with(|| a.digits.iter().rev().cmp(b.digits.iter().rev()))
+            .reverse(),
+    }
+}
+"""
+_CM_HELPER = """
+fn compare_magnitude(a: &[u8], b: &[u8]) -> Ordering {
+    a.len().cmp(&b.len()).then_with(|| {
+        for i in (%s..a.len()).rev() {
+            match a[i].cmp(&b[i]) {
+                Ordering::Equal => continue,
+                other => return other,
+            }
+        }
+        Ordering::Equal
+    })
+}
+"""
+_CM_NEW = """        (Sign::Positive, Sign::Positive) => compare_magnitude(&a.digits, &b.digits),
+        (Sign::Negative, Sign::Negative) => compare_magnitude(&a.digits, &b.digits).reverse(),
+    }
+}
+"""
+benign('benign-c12-magnitude-helper', 'C12', 'crates/erltf/src/term.rs', _CM_OLD, _CM_NEW + _CM_HELPER % '0')
+canary('c12-magnitude-helper-skips-lsd', 'C12', 'crates/erltf/src/term.rs', _CM_OLD, _CM_NEW + _CM_HELPER % '1', 'lsb-first')
+canary('c12-magnitude-helper-ascending', 'C12', 'crates/erltf/src/term.rs', _CM_OLD, _CM_NEW + (_CM_HELPER % '0').replace('.rev()', ''), 'lsb-first')
